@@ -1,7 +1,7 @@
 (** C12 — an embedded sub-process behaves like its content inlined; the parent continues once.
     Models: Model/Blocks.v (token game of block programs with sub-process wrappers) and
     Model/SubProc.v (the activation protocol of subprocess.go). *)
-From BV Require Import Model.Blocks Model.SubProc Proofs.BlocksProofs Proofs.SubProcProofs.
+From BV Require Import Model.Blocks Model.SubProc Proofs.BlocksProofs Proofs.SubProcProofs Model.StartCount Proofs.StartCountProofs Gen.Facts.
 Open Scope nat_scope.
 
 (* INLINE — for every program, every initial data and every sequence of answers (with their
@@ -73,6 +73,22 @@ Theorem C12_not_early_refuted_with_stale_monitor_state :
     conts s = 2 /\ bodies s = 1 /\ early s = true.
 Proof. exact sp_refuted_stale_seen. Qed.
 Print Assumptions C12_not_early_refuted_with_stale_monitor_state.
+
+(* EVERY ACTIVATION WAITS FOR ITS OWN CONTENT TO START (Model/StartCount.v): the monitor of an activation counts the
+   sub-process's start events that have fired in a list it makes afresh (the variant the sources show:
+   src_monitor_accumulator_is_local) -- whatever the activations before it saw, it leaves its first phase exactly when
+   every start event of the sub-process has fired in THIS activation ... *)
+Theorem C12_every_activation_waits_for_its_own_starts : forall kk trs tr,
+  phase_one_from (carried src_monitor_accumulator_is_local kk trs []) kk tr = all_fired kk tr.
+Proof. exact every_activation_waits_for_its_own_starts. Qed.
+Print Assumptions C12_every_activation_waits_for_its_own_starts.
+
+(* ... with a list that survives the activation the second activation's monitor is through its first phase before any
+   start event has fired (and may report the content complete before a token exists) *)
+Theorem C12_own_starts_refuted_when_the_list_survives :
+  phase_one_from (carried false 1 [[Own 0]] []) 1 [] = true /\ all_fired 1 [] = false.
+Proof. exact refuted_accumulator_survives. Qed.
+Print Assumptions C12_own_starts_refuted_when_the_list_survives.
 
 Example C12_nonvacuous :
   behaviour (BLoop 3 (BSub (BSeq (BTask 1) (BSub (BPar (BTask 2) (BTask 3)))))) [false; false; false; false]
